@@ -279,10 +279,10 @@ Qed.
 (* ------------------------------------------------------------------------------------------ *)
 (* browse: listings and archives                                                               *)
 
-Lemma browse_cases fs hide pages prefix confs m req ae archive :
-  let out := browse fs hide pages prefix confs m req ae archive in
+Lemma browse_cases fs hide pages prefix confs m req ae archive limit :
+  let out := browse fs hide pages prefix confs m req ae archive limit in
   out = serve_file fs hide pages prefix m req ae \/
-  out = Status 501 \/ out = Status 404 \/
+  out = Status 501 \/ (out = Status 404 \/ out = Status 400) \/
   (exists u, out = Redirect 301 (http_redirect req (escape_path (trim_dslash u ++ [SLASH]))) /\
              u = (match req with [] => [SLASH] | _ => req end) /\ ends_with_slash u = false /\
              exists d, fs_open fs req = Some d /\ n_dir d = true) \/
@@ -299,26 +299,29 @@ Proof.
   destruct (ends_with_slash u) eqn:Eu; simpl negb; cbv iota.
   - destruct (existsb _ (children fs (jail req))); [left; reflexivity|].
     destruct archive as [|a ar].
-    + right; right; right; right; left. rewrite visible_kids_eq. split; reflexivity.
+    + destruct (limit_of limit).
+      * right; right; right; right; left. rewrite visible_kids_eq. split; reflexivity.
+      * right; right; left; right. reflexivity.
     + destruct (existsb (beq (a :: ar)) (b_types bc)).
       * right; right; right; right; right. split; [reflexivity|discriminate].
-      * right; right; left. reflexivity.
+      * right; right; left; left. reflexivity.
   - right; right; right; left. eexists. split; [reflexivity|]. split; [reflexivity|]. split; [exact Eu|].
     exists d. auto.
 Qed.
 
-Lemma listing_sound fs hide pages prefix confs m req ae archive kids :
-  browse fs hide pages prefix confs m req ae archive = Listing kids ->
+Lemma listing_sound fs hide pages prefix confs m req ae archive limit kids :
+  browse fs hide pages prefix confs m req ae archive limit = Listing kids ->
   forall k, In k kids -> In k fs /\ is_child (jail req) (n_path k) = true /\ is_hidden fs hide k = false.
 Proof.
   intros H k Hk.
-  pose proof (browse_cases fs hide pages prefix confs m req ae archive) as C. cbv zeta in C. rewrite H in C.
-  destruct C as [C|[C|[C|[C|[C|C]]]]].
+  pose proof (browse_cases fs hide pages prefix confs m req ae archive limit) as C. cbv zeta in C. rewrite H in C.
+  destruct C as [C|[C|[[C|C]|[C|[C|C]]]]].
   - symmetry in C. exfalso. revert C. unfold serve_file.
     repeat match goal with
            | |- context [if ?b then _ else _] => destruct b; try discriminate
            | |- context [match ?x with _ => _ end] => destruct x; try discriminate
            end.
+  - discriminate.
   - discriminate.
   - discriminate.
   - destruct C as (u & C & _). discriminate.
@@ -365,17 +368,18 @@ Proof.
     rewrite Hdir, Hak in C. rewrite orb_true_r in C. discriminate.
 Qed.
 
-Lemma archive_sound fs hide pages prefix confs m req ae archive ms :
-  browse fs hide pages prefix confs m req ae archive = Archive ms ->
+Lemma archive_sound fs hide pages prefix confs m req ae archive limit ms :
+  browse fs hide pages prefix confs m req ae archive limit = Archive ms ->
   forall k, In k ms ->
     In k fs /\ is_desc (jail req) (n_path k) = true /\ is_hidden fs hide k = false /\
     (forall a, In a fs -> n_dir a = true -> is_desc (jail req) (n_path a) = true ->
                is_desc (n_path a) (n_path k) = true -> is_hidden fs hide a = false).
 Proof.
   intros H k Hk.
-  pose proof (browse_cases fs hide pages prefix confs m req ae archive) as C. cbv zeta in C. rewrite H in C.
-  destruct C as [C|[C|[C|[C|[C|C]]]]].
+  pose proof (browse_cases fs hide pages prefix confs m req ae archive limit) as C. cbv zeta in C. rewrite H in C.
+  destruct C as [C|[C|[[C|C]|[C|[C|C]]]]].
   - symmetry in C. exfalso. exact (serve_file_not_archive _ _ _ _ _ _ _ _ C).
+  - discriminate.
   - discriminate.
   - discriminate.
   - destruct C as (u & C & _). discriminate.
@@ -627,14 +631,14 @@ Proof.
       destruct (first_sibling fs hide req1 ae gen_static_encodings) as [[sn e]|]; discriminate.
 Qed.
 
-Lemma browse_redirect fs hide pages prefix confs m req ae archive code loc :
+Lemma browse_redirect fs hide pages prefix confs m req ae archive limit code loc :
   rooted prefix -> rooted req ->
-  browse fs hide pages prefix confs m req ae archive = Redirect code loc ->
+  browse fs hide pages prefix confs m req ae archive limit = Redirect code loc ->
   one_slash loc = true /\ same_origin loc = true.
 Proof.
   intros Hpre Hroot H.
-  pose proof (browse_cases fs hide pages prefix confs m req ae archive) as C. cbv zeta in C. rewrite H in C.
-  destruct C as [C|[C|[C|[C|[C|C]]]]]; try discriminate.
+  pose proof (browse_cases fs hide pages prefix confs m req ae archive limit) as C. cbv zeta in C. rewrite H in C.
+  destruct C as [C|[C|[[C|C]|[C|[C|C]]]]]; try discriminate.
   - symmetry in C. apply static_redirect in C; [tauto|exact Hpre|exact Hroot].
   - destruct C as (u & C & Eu & Hends & _). injection C as -> ->.
     assert (Hu : u = req) by (destruct Hroot as (t & ->); exact Eu). clear Eu. subst u.
@@ -755,25 +759,25 @@ Proof.
   intros H. destruct (serve_file_serve _ _ _ _ _ _ _ _ _ H) as (_ & _ & _ & _ & Hh). exact Hh.
 Qed.
 
-Lemma archive_inside_root fs hide pages prefix confs m req ae archive ms :
-  browse fs hide pages prefix confs m req ae archive = Archive ms ->
+Lemma archive_inside_root fs hide pages prefix confs m req ae archive limit ms :
+  browse fs hide pages prefix confs m req ae archive limit = Archive ms ->
   forall k, In k ms ->
     In k fs /\ is_desc (jail req) (n_path k) = true /\ has_prefix (n_path k) (jail req) = true.
 Proof.
   intros H k Hk.
-  destruct (archive_sound _ _ _ _ _ _ _ _ _ _ H k Hk) as (Hin & Hd & _).
+  destruct (archive_sound _ _ _ _ _ _ _ _ _ _ _ H k Hk) as (Hin & Hd & _).
   split; [exact Hin|]. split; [exact Hd|]. apply is_desc_prefix. exact Hd.
 Qed.
 
-Lemma archive_never_hidden fs hide pages prefix confs m req ae archive ms :
-  browse fs hide pages prefix confs m req ae archive = Archive ms ->
+Lemma archive_never_hidden fs hide pages prefix confs m req ae archive limit ms :
+  browse fs hide pages prefix confs m req ae archive limit = Archive ms ->
   forall k, In k ms ->
     is_hidden fs hide k = false /\
     (forall a, In a fs -> n_dir a = true -> is_desc (jail req) (n_path a) = true ->
                is_desc (n_path a) (n_path k) = true -> is_hidden fs hide a = false).
 Proof.
   intros H k Hk.
-  destruct (archive_sound _ _ _ _ _ _ _ _ _ _ H k Hk) as (_ & _ & Hh & Ha). auto.
+  destruct (archive_sound _ _ _ _ _ _ _ _ _ _ _ H k Hk) as (_ & _ & Hh & Ha). auto.
 Qed.
 
 (* ---- the whole site: internal -> browse -> static ---- *)
@@ -789,16 +793,16 @@ Qed.
 
 Lemma handle_cases (s : site) (r : request) :
   handle s r = Status 404 \/
-  handle s r = browse (s_fs s) (s_hide s) (s_pages s) (s_prefix s) (s_browse s) (q_meth r) (q_path r) (q_ae r) (q_archive r).
+  handle s r = browse (s_fs s) (s_hide s) (s_pages s) (s_prefix s) (s_browse s) (q_meth r) (q_path r) (q_ae r) (q_archive r) (q_limit r).
 Proof. unfold handle. destruct (internal_blocks (s_internal s) (q_path r)); auto. Qed.
 
-Lemma browse_serve fs hide pages prefix confs m req ae archive n enc :
-  browse fs hide pages prefix confs m req ae archive = Serve n enc ->
+Lemma browse_serve fs hide pages prefix confs m req ae archive limit n enc :
+  browse fs hide pages prefix confs m req ae archive limit = Serve n enc ->
   serve_file fs hide pages prefix m req ae = Serve n enc.
 Proof.
   intros H.
-  pose proof (browse_cases fs hide pages prefix confs m req ae archive) as C. cbv zeta in C. rewrite H in C.
-  destruct C as [C|[C|[C|[C|[C|C]]]]]; try discriminate.
+  pose proof (browse_cases fs hide pages prefix confs m req ae archive limit) as C. cbv zeta in C. rewrite H in C.
+  destruct C as [C|[C|[[C|C]|[C|[C|C]]]]]; try discriminate.
   - symmetry. exact C.
   - destruct C as (u & C & _). discriminate.
   - destruct C as [C _]. discriminate.
@@ -832,8 +836,8 @@ Proof.
     repeat split; auto.
   - intros k Hk. eapply listing_sound; eassumption.
   - intros k Hk.
-    destruct (archive_inside_root _ _ _ _ _ _ _ _ _ _ E k Hk) as (H1 & H2 & H3).
-    destruct (archive_never_hidden _ _ _ _ _ _ _ _ _ _ E k Hk) as (H4 & _). auto.
+    destruct (archive_inside_root _ _ _ _ _ _ _ _ _ _ _ E k Hk) as (H1 & H2 & H3).
+    destruct (archive_never_hidden _ _ _ _ _ _ _ _ _ _ _ E k Hk) as (H4 & _). auto.
 Qed.
 
 (* ------------------------------------------------------------------------------------------ *)
@@ -861,10 +865,11 @@ Proof.
   unfold spec_ok, spec_ok_ref. cbv zeta.
   set (fs := s_fs s). set (hide := s_hide s). set (c := jail (q_path r)).
   assert (Hok : forall (w1 w2 : bytes -> bool), (forall p, w1 p = w2 p) -> forall id,
-     negb (mem_N (hidden_ids fs hide) id) &&
+     inside_id id && negb (mem_N (hidden_ids fs hide) id) &&
      existsb (fun n => if (n_id n =? id) && negb (n_dir n) then w1 (n_path n) else false) fs =
+     inside_id id &&
      existsb (fun n => (n_id n =? id) && negb (n_dir n) && negb (hidden_id fs hide id) && w2 (n_path n)) fs).
-  { intros w1 w2 Hw id. rewrite hidden_ids_spec. rewrite <- existsb_andb_const.
+  { intros w1 w2 Hw id. rewrite <- andb_assoc. f_equal. rewrite hidden_ids_spec. rewrite <- existsb_andb_const.
     apply existsb_ext_in. intros n _. rewrite Hw.
     destruct (n_id n =? id), (n_dir n), (hidden_id fs hide id), (w2 (n_path n)); reflexivity. }
   assert (Hvis : forall p,
@@ -881,12 +886,381 @@ Proof.
   pose (w2 := fun p => is_desc c p && negb (existsb (fun a => n_dir a && hidden_id fs hide (n_id a) &&
      is_desc c (n_path a) && is_desc (n_path a) p) fs)).
   assert (Hw : forall p, w1 p = w2 p) by (intros p; unfold w1, w2; rewrite Hbel; reflexivity).
+  assert (Hfil : filter (fun k => negb (mem_N (hidden_ids fs hide) (n_id k))) (children fs c) =
+                 filter (fun k => negb (hidden_id fs hide (n_id k))) (children fs c)).
+  { apply filter_ext_in'. intros k _. rewrite hidden_ids_spec. reflexivity. }
   f_equal. destruct (o_kind o) as [|k].
-  - f_equal. apply forallb_ext_in. intros id _. apply Hok. intros p. apply allowed_static_set_spec.
+  - f_equal. f_equal; apply forallb_ext_in; intros id _; apply Hok; intros p; apply allowed_static_set_spec.
   - destruct k as [k|k|].
-    + f_equal; [apply forallb_ext_in; intros id _; exact (Hok w1 w2 Hw id)|].
+    + f_equal; [f_equal; apply forallb_ext_in; intros id _; exact (Hok w1 w2 Hw id)|].
       apply forallb_ext_in. intros nm _. rewrite Hvis, Hbel. reflexivity.
-    + f_equal; [apply forallb_ext_in; intros id _; exact (Hok w1 w2 Hw id)|].
+    + f_equal; [f_equal; apply forallb_ext_in; intros id _; exact (Hok w1 w2 Hw id)|].
       apply forallb_ext_in. intros nm _. rewrite Hvis, Hbel. reflexivity.
-    + f_equal. apply forallb_ext_in. intros nm _. apply Hvis.
+    + rewrite Hfil. f_equal. f_equal. apply forallb_ext_in. intros nm _. apply Hvis.
+Qed.
+
+(* ------------------------------------------------------------------------------------------ *)
+(* hideCasketfile over the whole list of site configs                                          *)
+
+Lemma hide_all_length cfgs : length (hide_casketfile_all cfgs) = length cfgs.
+Proof.
+  induction cfgs as [|c r IH]; [reflexivity|]. cbn [hide_casketfile_all].
+  destruct (sc_origin c).
+  - rewrite map_length. reflexivity.
+  - cbn [length]. rewrite IH. reflexivity.
+Qed.
+
+(* every site config gets ITS entry, whatever stands before or after it in the list *)
+Lemma hide_all_map cfgs :
+  (forall c, In c cfgs -> sc_origin c <> []) -> hide_casketfile_all cfgs = map hide_entry cfgs.
+Proof.
+  induction cfgs as [|c r IH]; intros H; [reflexivity|]. cbn [hide_casketfile_all map].
+  destruct (sc_origin c) eqn:E.
+  - exfalso. apply (H c); [left; reflexivity|exact E].
+  - rewrite IH; [reflexivity|]. intros x Hx. apply H. right. exact Hx.
+Qed.
+
+Lemma hide_all_every_site cfgs :
+  (forall c, In c cfgs -> sc_origin c <> []) ->
+  length (hide_casketfile_all cfgs) = length cfgs /\
+  forall i c, nth_error cfgs i = Some c -> nth i (hide_casketfile_all cfgs) [] = hide_entry c.
+Proof.
+  intros H. split; [apply hide_all_length|]. intros i c Hi. rewrite hide_all_map by exact H.
+  change (@nil bytes) with (hide_entry {| sc_root := []; sc_origin := [] |}).
+  rewrite map_nth. f_equal. apply nth_error_nth. exact Hi.
+Qed.
+
+(* the code's early return: a config without origin ends the pass — it and every later config get nothing *)
+Lemma hide_all_stops pre c post :
+  sc_origin c = [] -> (forall x, In x pre -> sc_origin x <> []) ->
+  hide_casketfile_all (pre ++ c :: post) = map hide_entry pre ++ map (fun _ => []) (c :: post).
+Proof.
+  intros Hc. induction pre as [|x pre IH]; intros H.
+  - cbn [app map hide_casketfile_all]. rewrite Hc. reflexivity.
+  - cbn [app map hide_casketfile_all]. destruct (sc_origin x) eqn:E.
+    + exfalso. apply (H x); [left; reflexivity|exact E].
+    + rewrite IH; [reflexivity|]. intros y Hy. apply H. right. exact Hy.
+Qed.
+
+(* the site configs of one Casketfile share their origin *)
+Lemma msite_confs_origin roots origin c : origin <> [] -> In c (msite_confs roots origin) -> sc_origin c <> [].
+Proof.
+  intros Ho Hc. unfold msite_confs in Hc. apply in_map_iff in Hc as (r & <- & _). cbn.
+  unfold abs_path. destruct origin as [|a o]; [contradiction|].
+  unfold clean. cbv zeta. destruct (a =? SLASH); [discriminate|].
+  destruct (join [SLASH] (clean_segs false (split SLASH (a :: o)) [])); discriminate.
+Qed.
+
+(* the root "/" (every absolute path has it as a string prefix): the entry is the origin without
+   its leading slash, and the jail opens exactly the origin *)
+Lemma hide_casketfile_root_slash name :
+  hide_casketfile [SLASH] (jail name) = Some (tl (jail name)) /\ jail (tl (jail name)) = jail name.
+Proof.
+  destruct (jail_rooted name) as (t & Et). rewrite Et. cbn [tl]. split.
+  - unfold hide_casketfile. cbn [has_prefix length skipn]. rewrite N.eqb_refl. destruct t; reflexivity.
+  - change (jail t) with (clean (SLASH :: t)). rewrite <- Et.
+    rewrite <- (jail_of_rooted (jail name)) by (apply jail_rooted). apply jail_idem.
+Qed.
+
+(* an entry of the hide list that opens a file hides every node with that file's identity *)
+Lemma hidden_by_entry fs hide h cf n :
+  In h hide -> fs_open fs h = Some cf -> n_id n = n_id cf -> is_hidden fs hide n = true.
+Proof.
+  intros Hin Ho Hid. unfold is_hidden, hidden_id. apply existsb_exists. exists h. split; [exact Hin|].
+  rewrite Ho. apply N.eqb_eq. congruence.
+Qed.
+
+(* a site config whose root contains the origin (origin = root ++ c, c a cleaned rooted path):
+   its entry of the pass over ANY list of site configs it is a member of, at ANY position, is c *)
+Lemma hide_all_entry_inside cfgs i c name :
+  (forall x, In x cfgs -> sc_origin x <> []) -> nth_error cfgs i = Some c ->
+  sc_origin c = sc_root c ++ jail name ->
+  nth i (hide_casketfile_all cfgs) [] = [jail name].
+Proof.
+  intros Hall Hi Ho. destruct (hide_all_every_site cfgs Hall) as [_ H]. rewrite (H i c Hi).
+  unfold hide_entry. rewrite Ho. destruct (hide_casketfile_inside (sc_root c) name) as [-> _]. reflexivity.
+Qed.
+
+Section OriginHidden.
+  Variables (cfgs : list sconf) (i : nat) (c : sconf) (name : bytes) (fs : fsys) (hide : list bytes) (cf : node).
+  Hypothesis Hall : forall x, In x cfgs -> sc_origin x <> [].
+  Hypothesis Hi : nth_error cfgs i = Some c.
+  Hypothesis Ho : sc_origin c = sc_root c ++ jail name.
+  Hypothesis Hhide : forall h, In h (nth i (hide_casketfile_all cfgs) []) -> In h hide.
+  Hypothesis Hcf : fs_open fs (jail name) = Some cf.
+
+  Lemma origin_entry_hides n : n_id n = n_id cf -> is_hidden fs hide n = true.
+  Proof.
+    intros Hid. apply (hidden_by_entry fs hide (jail name) cf n); [|exact Hcf|exact Hid].
+    apply Hhide. rewrite (hide_all_entry_inside cfgs i c name Hall Hi Ho). left. reflexivity.
+  Qed.
+
+  Lemma multi_casketfile_never_served pages prefix m req ae n enc :
+    serve_file fs hide pages prefix m req ae = Serve n enc -> n_id n <> n_id cf.
+  Proof.
+    intros Hs Heq. apply serve_file_serve in Hs as (_ & _ & _ & _ & Hnh).
+    rewrite (origin_entry_hides n Heq) in Hnh. discriminate.
+  Qed.
+
+  Lemma multi_casketfile_never_listed pages prefix confs m req ae archive limit kids :
+    browse fs hide pages prefix confs m req ae archive limit = Listing kids ->
+    forall k, In k kids -> n_id k <> n_id cf.
+  Proof.
+    intros H k Hk Heq. destruct (listing_sound _ _ _ _ _ _ _ _ _ _ _ H k Hk) as (_ & _ & Hnh).
+    rewrite (origin_entry_hides k Heq) in Hnh. discriminate.
+  Qed.
+
+  Lemma multi_casketfile_never_archived pages prefix confs m req ae archive limit ms :
+    browse fs hide pages prefix confs m req ae archive limit = Archive ms ->
+    forall k, In k ms -> n_id k <> n_id cf.
+  Proof.
+    intros H k Hk Heq. destruct (archive_never_hidden _ _ _ _ _ _ _ _ _ _ _ H k Hk) as (Hnh & _).
+    rewrite (origin_entry_hides k Heq) in Hnh. discriminate.
+  Qed.
+End OriginHidden.
+
+(* the whole handler chain of a site config at position i of a multi-site Casketfile *)
+Lemma multi_site_casketfile_never_disclosed cfgs i c name (s : site) cf (r : request) :
+  (forall x, In x cfgs -> sc_origin x <> []) -> nth_error cfgs i = Some c ->
+  sc_origin c = sc_root c ++ jail name ->
+  (forall h, In h (nth i (hide_casketfile_all cfgs) []) -> In h (s_hide s)) ->
+  fs_open (s_fs s) (jail name) = Some cf ->
+  match handle s r with
+  | Serve n _ => n_id n <> n_id cf
+  | Listing kids => forall k, In k kids -> n_id k <> n_id cf
+  | Archive ms => forall k, In k ms -> n_id k <> n_id cf
+  | _ => True
+  end.
+Proof.
+  intros Hall Hi Ho Hh Hcf.
+  pose proof (site_sound s r) as S.
+  destruct (handle s r) as [co|co loc|n enc|kids|ms]; try exact I.
+  - destruct S as (_ & _ & _ & _ & Hnh). intros Heq.
+    rewrite (origin_entry_hides cfgs i c name (s_fs s) (s_hide s) cf Hall Hi Ho Hh Hcf n Heq) in Hnh. discriminate.
+  - intros k Hk Heq. destruct (S k Hk) as (_ & _ & Hnh).
+    rewrite (origin_entry_hides cfgs i c name (s_fs s) (s_hide s) cf Hall Hi Ho Hh Hcf k Heq) in Hnh. discriminate.
+  - intros k Hk Heq. destruct (S k Hk) as (_ & _ & _ & Hnh).
+    rewrite (origin_entry_hides cfgs i c name (s_fs s) (s_hide s) cf Hall Hi Ho Hh Hcf k Heq) in Hnh. discriminate.
+Qed.
+
+(* ------------------------------------------------------------------------------------------ *)
+(* HEAD is GET without the body; the limit parameter                                           *)
+
+Lemma head_like_get (s : site) p ae ar l : handle s (mkreq 1 p ae ar l) = handle s (mkreq 0 p ae ar l).
+Proof. reflexivity. Qed.
+
+Lemma listing_limit_ok fs hide pages prefix confs m req ae archive limit kids :
+  browse fs hide pages prefix confs m req ae archive limit = Listing kids -> limit_of limit <> None.
+Proof.
+  intros H E. revert H. unfold browse. cbv zeta. rewrite E.
+  pose proof (serve_file_not_listing fs hide pages prefix m req ae kids) as NL.
+  repeat match goal with
+         | |- context [if ?b then _ else _] => destruct b; try discriminate; try (intros X; exact (NL X))
+         | |- context [match ?x with _ => _ end] => destruct x; try discriminate; try (intros X; exact (NL X))
+         end.
+Qed.
+
+Lemma listing_independent_of_limit fs hide pages prefix confs m req ae archive l1 l2 k1 k2 :
+  browse fs hide pages prefix confs m req ae archive l1 = Listing k1 ->
+  browse fs hide pages prefix confs m req ae archive l2 = Listing k2 -> k1 = k2.
+Proof.
+  intros H1 H2.
+  pose proof (browse_cases fs hide pages prefix confs m req ae archive l1) as C1. cbv zeta in C1. rewrite H1 in C1.
+  pose proof (browse_cases fs hide pages prefix confs m req ae archive l2) as C2. cbv zeta in C2. rewrite H2 in C2.
+  assert (E1 : Listing k1 = Listing (filter (fun k => negb (is_hidden fs hide k)) (children fs (jail req)))).
+  { destruct C1 as [C|[C|[[C|C]|[C|[C|C]]]]]; try discriminate.
+    - exfalso. symmetry in C. exact (serve_file_not_listing _ _ _ _ _ _ _ _ C).
+    - destruct C as (u & C & _). discriminate.
+    - destruct C as [C _]. exact C.
+    - destruct C as [C _]. discriminate. }
+  assert (E2 : Listing k2 = Listing (filter (fun k => negb (is_hidden fs hide k)) (children fs (jail req)))).
+  { destruct C2 as [C|[C|[[C|C]|[C|[C|C]]]]]; try discriminate.
+    - exfalso. symmetry in C. exact (serve_file_not_listing _ _ _ _ _ _ _ _ C).
+    - destruct C as (u & C & _). discriminate.
+    - destruct C as [C _]. exact C.
+    - destruct C as [C _]. discriminate. }
+  congruence.
+Qed.
+
+(* ------------------------------------------------------------------------------------------ *)
+(* the numbers an HTML listing announces                                                        *)
+
+Lemma count_kind_filter_le b (f : node -> bool) l : count_kind b (filter f l) <= count_kind b l.
+Proof.
+  unfold count_kind.
+  assert (H : (length (filter (fun k => Bool.eqb (n_dir k) b) (filter f l)) <=
+               length (filter (fun k => Bool.eqb (n_dir k) b) l))%nat).
+  { induction l as [|a l IH]; [apply le_n|]. cbn [filter].
+    destruct (f a); cbn [filter]; destruct (Bool.eqb (n_dir a) b); cbn [length]; lia. }
+  lia.
+Qed.
+
+Lemma filter_all_true {A} (f : A -> bool) l : (forall x, In x l -> f x = true) -> filter f l = l.
+Proof.
+  induction l as [|a l IH]; intros H; [reflexivity|]. cbn [filter]. rewrite (H a (or_introl eq_refl)).
+  rewrite IH; [reflexivity|]. intros x Hx. apply H. right. exact Hx.
+Qed.
+
+(* what a listing announces is never less than what it lists, and equal if nothing in the directory is hidden *)
+Lemma listing_counts_partial fs hide pages prefix confs m req ae archive limit kids :
+  browse fs hide pages prefix confs m req ae archive limit = Listing kids ->
+  count_kind true kids <= fst (announced_counts fs (jail req)) /\
+  count_kind false kids <= snd (announced_counts fs (jail req)) /\
+  ((forall k, In k (children fs (jail req)) -> is_hidden fs hide k = false) ->
+   announced_counts fs (jail req) = (count_kind true kids, count_kind false kids)).
+Proof.
+  intros H.
+  pose proof (browse_cases fs hide pages prefix confs m req ae archive limit) as C. cbv zeta in C. rewrite H in C.
+  assert (E : kids = filter (fun k => negb (is_hidden fs hide k)) (children fs (jail req))).
+  { destruct C as [C|[C|[[C|C]|[C|[C|C]]]]]; try discriminate.
+    - exfalso. symmetry in C. exact (serve_file_not_listing _ _ _ _ _ _ _ _ C).
+    - destruct C as (u & C & _). discriminate.
+    - destruct C as [C _]. injection C as ->. reflexivity.
+    - destruct C as [C _]. discriminate. }
+  subst kids. unfold announced_counts. cbn [fst snd].
+  split; [apply count_kind_filter_le|]. split; [apply count_kind_filter_le|].
+  intros Hnone. rewrite filter_all_true; [reflexivity|].
+  intros k Hk. rewrite (Hnone k Hk). reflexivity.
+Qed.
+
+(* ------------------------------------------------------------------------------------------ *)
+(* the sites of a multi-site Casketfile as the harness builds them                              *)
+
+Lemma subtree_inside fs d n :
+  In n (subtree fs d) ->
+  exists n0, In n0 fs /\ n_id n = n_id n0 /\ n_dir n = n_dir n0 /\
+    ((d = [SLASH] /\ n_path n = n_path n0) \/
+     (n_path n0 = d /\ n_path n = [SLASH]) \/
+     (is_desc d (n_path n0) = true /\ n_path n = SLASH :: rel_name d (n_path n0))).
+Proof.
+  unfold subtree. intros H. apply in_flat_map in H as (n0 & Hin & H). exists n0. split; [exact Hin|].
+  unfold reroot in H.
+  destruct (beq d [SLASH]) eqn:Ed.
+  - destruct H as [<-|[]]. cbn. repeat split. left. split; [|reflexivity]. apply beq_eq. exact Ed.
+  - destruct (beq (n_path n0) d) eqn:Ep.
+    + destruct H as [<-|[]]. cbn. repeat split. right. left. split; [|reflexivity]. apply beq_eq. exact Ep.
+    + destruct (is_desc d (n_path n0)) eqn:Ei; [|destruct H].
+      destruct H as [<-|[]]. cbn. repeat split. right. right. split; reflexivity.
+Qed.
+
+Lemma msite_casketfile_never_disclosed roots origin pos root rootrel scope types name cf (r : request) :
+  origin <> [] -> nth_error roots pos = Some root ->
+  abs_path origin = abs_path root ++ jail name ->
+  fs_open (subtree mtree_fs rootrel) (jail name) = Some cf ->
+  match handle (msite roots origin pos rootrel scope types) r with
+  | Serve n _ => n_id n <> n_id cf
+  | Listing kids => forall k, In k kids -> n_id k <> n_id cf
+  | Archive ms => forall k, In k ms -> n_id k <> n_id cf
+  | _ => True
+  end.
+Proof.
+  intros Ho Hn Hin Hcf.
+  apply (multi_site_casketfile_never_disclosed (msite_confs roots origin) pos
+           {| sc_root := abs_path root; sc_origin := abs_path origin |} name).
+  - intros x Hx. exact (msite_confs_origin roots origin x Ho Hx).
+  - unfold msite_confs.
+    exact (map_nth_error (fun r0 => {| sc_root := abs_path r0; sc_origin := abs_path origin |}) pos roots Hn).
+  - exact Hin.
+  - intros h Hh. cbn [msite s_hide]. apply in_or_app. left. exact Hh.
+  - exact Hcf.
+Qed.
+
+(* ------------------------------------------------------------------------------------------ *)
+(* component-wise containment (the test of the executable origin clause) implies the string-    *)
+(* prefix test of hideCasketfile, and the entry it yields opens exactly the origin             *)
+
+Lemma has_prefix_split : forall (s p : bytes), has_prefix s p = true -> s = p ++ skipn (length p) s.
+Proof.
+  intros s p. revert s. induction p as [|y p IH]; intros s H; [reflexivity|].
+  destruct s as [|x s]; [discriminate|]. cbn [has_prefix] in H.
+  apply andb_true_iff in H as [Hxy Hr]. apply N.eqb_eq in Hxy. subst y.
+  cbn [length skipn app]. f_equal. apply IH. exact Hr.
+Qed.
+
+Lemma app_cut_noslash : forall (s a rel t : bytes),
+  ~ In SLASH s -> a ++ SLASH :: rel = s ++ t -> exists a', a = s ++ a' /\ t = a' ++ SLASH :: rel.
+Proof.
+  induction s as [|c s IH]; intros a rel t Hs E.
+  - exists a. split; [reflexivity|]. symmetry. exact E.
+  - destruct a as [|x a].
+    + cbn in E. injection E as Ec _. exfalso. apply Hs. left. symmetry. exact Ec.
+    + cbn in E. injection E as Ex E. subst x.
+      destruct (IH a rel t) as (a' & Ha & Ht); [intros Hin; apply Hs; right; exact Hin|exact E|].
+      exists a'. split; [cbn; f_equal; exact Ha|exact Ht].
+Qed.
+
+(* a suffix of a cleaned path that starts after a separator is the join of a suffix of its segments *)
+Lemma join_suffix : forall (segs : list bytes) (a rel : bytes),
+  (forall s, In s segs -> good_seg s) -> join [SLASH] segs = a ++ SLASH :: rel ->
+  exists segs', rel = join [SLASH] segs' /\ (forall s, In s segs' -> good_seg s).
+Proof.
+  induction segs as [|s segs IH]; intros a rel Hg E.
+  - destruct a; discriminate.
+  - assert (Hs : ~ In SLASH s) by (destruct (Hg s (or_introl eq_refl)) as (_ & _ & _ & H); exact H).
+    destruct segs as [|s2 segs].
+    + cbn [join] in E. exfalso. apply Hs. rewrite E. apply in_or_app. right. left. reflexivity.
+    + change (join [SLASH] (s :: s2 :: segs)) with (s ++ [SLASH] ++ join [SLASH] (s2 :: segs)) in E.
+      symmetry in E. destruct (app_cut_noslash s a rel _ Hs E) as (a' & _ & Ht).
+      destruct a' as [|x a'].
+      * cbn in Ht. injection Ht as Ht. exists (s2 :: segs). split; [symmetry; exact Ht|].
+        intros y Hy. apply Hg. right. exact Hy.
+      * cbn in Ht. injection Ht as _ Ht.
+        apply (IH a' rel); [intros y Hy; apply Hg; right; exact Hy|exact Ht].
+Qed.
+
+Lemma skipn_all_self {A} (l : list A) : skipn (length l) l = [].
+Proof. induction l as [|x l IH]; [reflexivity|exact IH]. Qed.
+
+Lemma origin_inside_root_is_hidden base rootrel x p :
+  reroot rootrel (jail x) = Some p ->
+  exists h, hide_casketfile (abs_of base rootrel) (base ++ jail x) = Some h /\ jail h = p /\ jail p = p.
+Proof.
+  unfold reroot, abs_of. destruct (beq rootrel [SLASH]) eqn:Er.
+  - intros E. injection E as <-. exists (jail x).
+    destruct (hide_casketfile_inside base x) as [-> Hj]. auto.
+  - destruct (beq (jail x) rootrel) eqn:Eo.
+    + intros E. injection E as <-. apply beq_eq in Eo. rewrite <- Eo. exists [].
+      split; [|split; vm_compute; reflexivity].
+      unfold hide_casketfile. destruct (base ++ jail x) eqn:E.
+      * destruct (jail_rooted x) as (t & Et). rewrite Et in E. destruct base; discriminate.
+      * rewrite has_prefix_refl, skipn_all_self. reflexivity.
+    + destruct (is_desc rootrel (jail x)) eqn:Ed; [|discriminate].
+      intros E. injection E as <-.
+      unfold is_desc in Ed. apply andb_true_iff in Ed as [Hp _].
+      unfold rel_name. unfold dir_prefix in *. rewrite Er in *.
+      pose proof (has_prefix_split _ _ Hp) as Hsplit.
+      set (rel := skipn (length (rootrel ++ [SLASH])) (jail x)) in *.
+      assert (Ho : jail x = rootrel ++ SLASH :: rel) by (rewrite Hsplit at 1; rewrite <- app_assoc; reflexivity).
+      exists (SLASH :: rel). split; [|split].
+      * unfold hide_casketfile. rewrite Ho. destruct (base ++ rootrel ++ SLASH :: rel) eqn:E.
+        { destruct base; [destruct rootrel|]; discriminate. }
+        rewrite <- E. rewrite app_assoc. rewrite has_prefix_app_self, skipn_app_self. reflexivity.
+      * (* jail (SLASH :: rel) = SLASH :: rel *)
+        destruct (clean_rooted_shape (SLASH :: x)) as (segs & Hc & Hg); [exists x; reflexivity|].
+        change (clean (SLASH :: x)) with (jail x) in Hc.
+        destruct rootrel as [|c r'].
+        -- change ([] ++ SLASH :: rel) with (SLASH :: rel) in Ho. rewrite <- Ho. apply jail_idem.
+        -- rewrite Hc in Ho. change ((c :: r') ++ SLASH :: rel) with (c :: (r' ++ SLASH :: rel)) in Ho. injection Ho as _ Ho.
+           destruct (join_suffix segs r' rel Hg Ho) as (segs' & -> & Hg').
+           unfold jail. rewrite clean_extra_slash by (eexists; reflexivity). apply clean_of_shape. exact Hg'.
+      * destruct (clean_rooted_shape (SLASH :: x)) as (segs & Hc & Hg); [exists x; reflexivity|].
+        change (clean (SLASH :: x)) with (jail x) in Hc.
+        destruct rootrel as [|c r'].
+        -- change ([] ++ SLASH :: rel) with (SLASH :: rel) in Ho. rewrite <- Ho. apply jail_idem.
+        -- rewrite Hc in Ho. change ((c :: r') ++ SLASH :: rel) with (c :: (r' ++ SLASH :: rel)) in Ho. injection Ho as _ Ho.
+           destruct (join_suffix segs r' rel Hg Ho) as (segs' & -> & Hg').
+           unfold jail. rewrite clean_extra_slash by (eexists; reflexivity). apply clean_of_shape. exact Hg'.
+Qed.
+
+Lemma hide_casketfile_iff root origin h :
+  hide_casketfile root origin = Some h <->
+  origin <> [] /\ has_prefix origin root = true /\ h = skipn (length root) origin.
+Proof.
+  unfold hide_casketfile. destruct origin as [|a o].
+  - split; [discriminate|]. intros (H & _). contradiction.
+  - destruct (has_prefix (a :: o) root).
+    + split.
+      * intros E. injection E as <-. split; [discriminate|]. split; reflexivity.
+      * intros (_ & _ & ->). reflexivity.
+    + split; [discriminate|]. intros (_ & H & _). discriminate.
 Qed.
